@@ -79,6 +79,7 @@ func genBotParent(c *Ctx) {
 	so.Buffer(make([]byte, 1<<20), 1<<26)
 	se.Buffer(make([]byte, 1<<20), 1<<26)
 	first := true
+	caseHash, caseLen := uint64(14695981039346656037), 0
 	for so.Scan() {
 		if !se.Scan() {
 			panic("C07 worker: short .exp")
@@ -94,12 +95,22 @@ func genBotParent(c *Ctx) {
 		c.exp.WriteString(out)
 		c.exp.WriteByte('\n')
 		c.N++
-		if !strings.HasPrefix(line, "case ") {
-			c.distinct[hashStr(line)] = struct{}{}
+		// distinct = distinct schedules: hash of all op lines of a case (the `case n` line excluded)
+		if strings.HasPrefix(line, "case ") {
+			if caseLen > 1 {
+				c.distinct[caseHash] = struct{}{}
+			}
+			caseHash, caseLen = 14695981039346656037, 0
+		} else {
+			caseHash = (caseHash ^ hashStr(line)) * 1099511628211
+			caseLen++
 		}
 		if len(c.samples) < 3 || (c.N%9973 == 0 && len(c.samples) < 8) {
 			c.samples = append(c.samples, line+" => "+clip(out, 300))
 		}
+	}
+	if caseLen > 1 {
+		c.distinct[caseHash] = struct{}{}
 	}
 	var sum struct {
 		Distribution map[string]int `json:"distribution"`
@@ -143,6 +154,7 @@ type botScn struct {
 	replay int      // moves the server replays (resume) from the start, whoever is to move
 	menu   string   // enabled event classes
 	depth  int
+	gameNo int
 }
 
 var botScripts = map[int][]string{
@@ -242,7 +254,14 @@ func (r *botRun) sync() {
 		mine := (r.scn.colour == "w" && r.cur().ToMove() == tak.White) || (r.scn.colour == "b" && r.cur().ToMove() == tak.Black)
 		n, err := r.cur().Move(m)
 		if err != nil || !mine {
-			r.c.Count("srv:NOK")
+			if r.used['g'] > 0 {
+				r.c.Count("srv:NOK-after-a-line-no-server-sends")
+			} else {
+				r.c.Count("srv:NOK")
+			}
+			if os.Getenv("VERIF_C07_DEBUG") != "" {
+				fmt.Fprintf(os.Stderr, "NOK: scn=%s sent=%q mine=%v err=%v ply=%d N=%d\n", r.scn.name, x, mine, err, r.cur().MoveNumber(), r.c.N)
+			}
 			continue
 		}
 		r.srv = append(r.srv, n)
@@ -255,7 +274,7 @@ func (r *botRun) start(id int) {
 	r.seen, r.undoReq, r.tseen, r.times = 0, false, 0, 0
 	r.replay = r.scn.replay
 	r.used = map[byte]int{}
-	line := fmt.Sprintf("botnew %s %d 600 %d", r.scn.colour, r.scn.size, 100+id%900)
+	line := fmt.Sprintf("botnew %s %d 600 %d", r.scn.colour, r.scn.size, r.scn.gameNo)
 	if r.variant != "" {
 		line += " v=" + r.variant
 	}
@@ -263,6 +282,14 @@ func (r *botRun) start(id int) {
 }
 
 func (r *botRun) deliver(line string, extra string) string {
+	// a move line of this game is a move of the server's history (whoever wrote the line)
+	if bits := strings.Split(line, " "); len(bits) >= 2 && bits[0] == r.gs() && (bits[1] == "P" || bits[1] == "M") {
+		if m, err := playtak.ParseServer(strings.Join(bits[1:], " ")); err == nil {
+			if n, err := r.cur().Move(m); err == nil {
+				r.srv = append(r.srv, n)
+			}
+		}
+	}
 	op := "ev deliver " + hex.EncodeToString([]byte(line))
 	if line == "" {
 		op = "ev deliver -"
@@ -335,8 +362,6 @@ func (r *botRun) options() []botOpt {
 	if r.replay > 0 || r.scn.colour == "o" || !r.botToMove() {
 		if m, ok := r.scriptMove(r.cur()); ok {
 			add('M', func() {
-				n, _ := r.cur().Move(m)
-				r.srv = append(r.srv, n)
 				if r.replay > 0 {
 					r.replay--
 				}
@@ -353,11 +378,23 @@ func (r *botRun) options() []botOpt {
 	nt := len(b.timers)
 	b.mu.Unlock()
 	if c != nil {
-		if m, ok := r.scriptMove(c.p); ok {
-			add('a', func() { r.emit("ev aireturns " + encMove(m)) })
+		tag := func() {
+			switch {
+			case c.ctx.Err() != nil:
+				r.c.Count("ai:answers-after-cancel")
+			case c.p == b.game.VerifP():
+				r.c.Count("ai:answers-for-current-position")
+			default:
+				r.c.Count("ai:answers-for-superseded-position")
+			}
 		}
-		add('A', func() { r.emit("ev aireturns " + encMove(r.scn.alt)) })
-		add('x', func() { r.emit("ev aireturns 0,0,0,0") })
+		if m, ok := r.scriptMove(c.p); ok {
+			add('a', func() { tag(); r.emit("ev aireturns " + encMove(m)) })
+		}
+		add('A', func() { tag(); r.emit("ev aireturns " + encMove(r.scn.alt)) })
+		add('x', func() { tag(); r.emit("ev aireturns 0,0,0,0") })
+	} else if over, _ := b.game.VerifP().GameOver(); over && !b.over() {
+		r.c.Count("state:decided-position-idle-thinker")
 	}
 	if nt > r.tseen {
 		add('t', func() { r.tseen = nt; r.emit("ev timer") })
@@ -419,8 +456,6 @@ func (r *botRun) prefix(k int) {
 		if !ok {
 			return
 		}
-		n, _ := r.cur().Move(m)
-		r.srv = append(r.srv, n)
 		r.deliver(r.gs()+" "+playtak.FormatServer(m), "")
 		r.times++
 		r.deliver(fmt.Sprintf("%s Time %d %d", r.gs(), 600-7*r.times, 590-3*r.times), "")
@@ -544,7 +579,7 @@ func genBotWorker(c *Ctx) {
 		script, alt := mkScript(size)
 		mk := func(name, colour, menu string, pre, replay, depth int) {
 			scns = append(scns, &botScn{name: fmt.Sprintf("%s-%s%d", name, colour, size), colour: colour, size: size, script: script, alt: alt,
-				pre: pre, replay: replay, menu: menu, depth: depth + extra})
+				pre: pre, replay: replay, menu: menu, depth: depth + extra, gameNo: 100 + len(scns)})
 		}
 		maxPre := len(script) - 1
 		if size != 3 && !c.Thorough() {
@@ -590,6 +625,7 @@ func genBotWorker(c *Ctx) {
 		}
 		w.pre = rng.Intn(len(w.script))
 		w.replay = 0
+		w.gameNo = 1 + rng.Intn(99999)
 		if rng.Chance(1, 3) {
 			w.pre = 0
 			w.replay = 1 + rng.Intn(len(w.script))
